@@ -18,7 +18,7 @@ VARIABLES s, closed, g, last
 
 \* the states of the case matrix, plus the states a channel passes through on its way to them
 Base(t, h) == [t EXCEPT !.hist = h, !.nb = "typ", !.skew = "0", !.htlc = "none"]
-Target == {t \in AbsStates(KS, Mags) : t.pre = "none"}
+Target == {t \in AbsStates(KS, Mags) \cup GuessStates : t.pre = "none"}
 States == Target \cup {Base(t, h) : t \in Target, h \in {"fresh", "noC", "noH", "init"}}
 SameChannel(a, b) == a.dir = b.dir /\ a.pol = b.pol /\ a.mag = b.mag /\ a.upfront = b.upfront
 HistNext(h1, h2) == \/ h1 = "fresh" /\ h2 \in {"noC", "noH"}
@@ -39,7 +39,9 @@ Advance == /\ ~closed
            /\ g' = <<"ok", {}, "">>
            /\ last' = [op |-> "Advance"]
 
-Close == \E r \in PlausibleReqs(s, KR) :
+\* states of the "guess" block that are farther than KS from the good state get the narrow request set
+Dist(t) == Cardinality({f \in StateFields : t[f] # GoodState(t.dir, t.pol)[f]})
+Close == \E r \in PlausibleReqs(s, IF Dist(s) <= KS THEN KR ELSE 1) \cup GuessReqsOf(s, KR >= 2) :
            LET w == WorldOf(s, r.allow)
                c == ConcReq(s, r)
                q == JudgedReq(c)
